@@ -159,7 +159,7 @@ theorem readout_is_sum_wellsized (g : Geom) (ops : List (Op K)) (h : WellSized g
 
 /-- **Pixel by pixel, assembled**: the `k`-th image a history returns exists as soon as there is a
 `k`-th exposure, and its pixel `i` is `Σ_j bin(p_j)[i]·dt_j·w_j` over the integrations of that
-exposure.  (Which fine pixels `bin(p)[i]` adds up is `binND_getD`, see `readout_pixel_index`.) -/
+exposure.  (Which fine pixels `bin(p)[i]` adds up: `readout_pixel_index` below.) -/
 theorem readout_pixel (g : Geom) (ops : List (Op K)) (k : Nat) (e : List (List K × K × K))
     (he : (exposures g [] ops)[k]? = some e) (i : Nat) (hi : i < g.npix) :
     ∃ img, (images (run g ({} : St K) ops).2)[k]? = some img ∧
@@ -168,6 +168,24 @@ theorem readout_pixel (g : Geom) (ops : List (Op K)) (k : Nat) (e : List (List K
   · rw [readout_is_sum, List.getElem?_map, he]; rfl
   · exact sumCharges_pixel g e
       (exposures_valid g ops [] (by intro x hx; simp at hx) e (List.mem_of_getElem? he)) i hi
+
+/-- **Pixel by pixel, down to the fine samples**: pixel `c` (multi-index on the detector grid) of the `k`-th
+image is `Σ_j (Σ_{r in the s×…×s box of c} p_j[fine index of c·s + r])·dt_j·w_j` — `boxSums` is that box sum in closed
+form (Model/Binning.lean).  No `binND` occurs on the right-hand side: a binning that permuted pixels would
+violate this. -/
+theorem readout_pixel_index (g : Geom) (ops : List (Op K)) (k : Nat) (e : List (List K × K × K))
+    (he : (exposures g [] ops)[k]? = some e) (c : List Nat) (hc : InBounds g.dims c) :
+    ∃ img, (images (run g ({} : St K) ops).2)[k]? = some img ∧
+      img.getD (flatIdx g.dims c) 0 = (e.map fun x =>
+        boxSums g.dims (g.dims.map fun _ => g.s) c (fun f => x.1.getD f 0) * x.2.1 * x.2.2).sum := by
+  obtain ⟨img, h1, h2⟩ := readout_pixel g ops k e he (flatIdx g.dims c) (flatIdx_lt g.dims c hc)
+  refine ⟨img, h1, ?_⟩
+  rw [h2]
+  congr 1
+  apply List.map_congr_left
+  intro x hx
+  have hv := exposures_valid g ops [] (by intro x hx; simp at hx) e (List.mem_of_getElem? he) x hx
+  rw [binND_getD g.s g.dims c hc x.1 hv]
 
 example : WellSized ({ dims := [1, 2], s := 2 } : Geom)
     ([.readOut, .integrate [1, 2, 3, 4, 5, 6, 7, 8] (1/2) 3, .readOut] : List (Op Rat)) := by decide
@@ -337,16 +355,17 @@ example :
       [.setFlat [2, 3], .integrate [1, 1] 1 1, .readOut, .setFlat [1, 1], .integrate [1, 2] 1 1, .readOut]
       = [(false, .image [2, 3]), (true, .image [1, 2])] := by decide +kernel
 
-/-! ### the unrepaired tree (`…Old`), counterexamples -/
+/-! ### Old: the unrepaired tree (documentation of D15 / D29, not evidence: /repo is repaired, no driver op
+runs the `…Old` definitions and the harness sends nothing to them) -/
 
 /-- D15: on the unrepaired tree a read-out with nothing integrated fails. -/
-theorem readOutOld_fails_when_empty (g : Geom) :
+theorem Old_readOut_fails_when_empty (g : Geom) :
     ∃ o, (runOld g ({} : St Rat) [.readOut]).2 = [o] ∧ (match o with | .failed => True | _ => False) :=
   ⟨.failed, rfl, trivial⟩
 
 /-- D29: on the unrepaired tree a detector of 1 pixel with subsampling 2 (one axis) returns a
 2-pixel image. -/
-theorem integrateOld_ignores_subsampling :
+theorem Old_integrate_ignores_subsampling :
     images (runOld ({ dims := [1], s := 2 } : Geom) ({} : St Rat) [.integrate [1, 2] 1 1, .readOut]).2
       = [[1, 2]] ∧
     images (run ({ dims := [1], s := 2 } : Geom) ({} : St Rat) [.integrate [1, 2] 1 1, .readOut]).2
